@@ -3,12 +3,17 @@
 Proof side   coq/Export/Cleanup.v (+Proofs): the exporter's name clean-up and short-name mapper, for all strings;
              coq/Export/Unssa.v (+Proofs): the assignments emitted for an ONNX Loop compute the loop-carried values;
              coq/Export/Emit.v (+Proofs): the statements emitted for a straight-line graph, and `export_sound`:
-             eval_script (export_graph g) = eval_graph g for every kernel semantics (Props/C13_emit.v).
+             eval_script (export_graph g) = eval_graph g for every kernel semantics (Props/C13_emit.v);
+             coq/Export/EmitCF.v (+Proofs): the statements emitted for NESTED graphs (If, Loop, un-SSA assignments, remapping scope,
+             use_operators / inline_const / skip_initializers) and `export_cf_sound`: the same round trip for If and while-form Loop
+             bodies nested to any depth (Props/C13_nested.v).
 Tie          translator: keyword list / operator table of onnx_export.py -> coq/Gen/ExportTables.v (theorems re-proved
              against it); correspondence: real `_cleanup_variable_name` and `_make_short_name_mapper` vs the Gallina
              model on generated ASCII strings; verified checker `collision_freeb` evaluated in Coq on the real names
              of every generated model; the statements the real proto2python prints for straight-line models and
-             functions (parsed back with `ast`) vs `export_graph` on the same graph, compared inside Coq (harness/c13_emit.py).
+             functions (parsed back with `ast`) vs `export_graph` on the same graph, compared inside Coq (harness/c13_emit.py);
+             the statement structure printed for models / functions with If and Loop (depth <= 2) under the structure-changing options
+             vs `export_cf`, compared inside Coq on the AST (harness/c13_cf.py).
 Direct oracle generated models / functions / script functions x export options: proto2python -> ast.parse -> exec ->
              to_model_proto -> same interface -> same outputs on onnxruntime (ORT_DISABLE_ALL) on >= 3 feeds.
 """
@@ -91,7 +96,15 @@ def analyze(proto):
     info = {"is_model": isinstance(proto, onnx.ModelProto), "pure_for": 0, "for_with_cond": 0, "no_stop": 0, "while": 0,
             "swap": 0, "ifs": 0, "nodes": 0, "depth": 0, "inlinable_nodes": set(), "inlinable_inits": set(),
             "nonfinite_inlinable": False, "nonfinite_any": False, "sources": set(), "large_inits": 0, "inits": 0,
-            "optional_inputs": 0, "optional_outputs": 0, "attr_params": 0, "node_names": 0, "empty_inlinable": False}
+            "optional_inputs": 0, "optional_outputs": 0, "attr_params": 0, "node_names": 0, "empty_inlinable": False,
+            "neg_scalars": set(), "neg_pow_base": False}
+
+    def _neg_scalar(t):
+        import onnx
+        if not _tensor_inlinable(t) or len(t.dims) != 0:
+            return False
+        a = onnx.numpy_helper.to_array(t)
+        return bool(np.signbit(a)) if a.dtype.kind == "f" else bool(a < 0)
 
     def graph(g, depth):
         info["depth"] = max(info["depth"], depth)
@@ -102,6 +115,8 @@ def analyze(proto):
                 size *= d
             if size > 4:
                 info["large_inits"] += 1
+            if _neg_scalar(init):
+                info["neg_scalars"].add(init.name)
             if _tensor_inlinable(init):
                 info["inlinable_inits"].add(init.name)
                 info["empty_inlinable"] |= list(init.dims) == [0]
@@ -120,6 +135,8 @@ def analyze(proto):
             info["optional_outputs"] += "" in list(n.output)
             if n.op_type == "Constant" and len(n.attribute) == 1 and n.attribute[0].HasField("t"):
                 t = n.attribute[0].t
+                if _neg_scalar(t):
+                    info["neg_scalars"].add(n.output[0])
                 if _tensor_inlinable(t):
                     info["inlinable_nodes"].add(n.output[0])
                     info["empty_inlinable"] |= list(t.dims) == [0]
@@ -127,6 +144,8 @@ def analyze(proto):
                         info["nonfinite_inlinable"] = True
                 if _tensor_nonfinite(t):
                     info["nonfinite_any"] = True
+            if n.op_type == "Pow" and len(n.input) == 2 and n.input[0] in info["neg_scalars"]:
+                info["neg_pow_base"] = True
             if n.op_type == "If":
                 info["ifs"] += 1
             if n.op_type == "Loop":
@@ -201,6 +220,9 @@ KNOWN_CLASSES = {
     "C13:inline_const:empty-list-literal":
         "inline_const=True prints a FLOAT/INT64 constant of shape [0] as the literal [], which the converter cannot type "
         "(dtype must be specified when value is an empty sequence)",
+    "C13:use_operators:negative-literal-pow-base:precedence":
+        "use_operators=True with inline_const=True prints Pow(c, x) with a negative scalar constant c as `y = -2.0 ** x`, which Python reads as "
+        "-(2.0 ** x): the exported function computes something else",
     "C13:use_operators:no-opset-call-left":
         "use_operators=True on a function all of whose nodes print as Python operators: no opset is mentioned and @script() has no default_opset",
     "C13:names:collision-after-cleanup:silently-merged":
@@ -258,6 +280,8 @@ def classify(case, info, collide, opts, out, cleanup):
         return "C13:loop:trip-count-and-condition:not-reconvertible"
     if stage in ("exec", "to_proto") and exc == "RuntimeError" and "default_opset must be specified" in msg and opts["use_operators"]:
         return "C13:use_operators:no-opset-call-left"
+    if stage == "mismatch" and opts["use_operators"] and opts["inline_const"] and info["neg_pow_base"]:
+        return "C13:use_operators:negative-literal-pow-base:precedence"
     if stage in ("mismatch", "load", "run", "interface") and info["optional_outputs"] and any(re.fullmatch(r"_\d+", n) for n in G.all_names(case["proto"])):
         return "C13:names:missing-output-placeholder-collides"
     if collide:
@@ -442,6 +466,96 @@ def corr_emit(ctx, workdir, cleanup, stats):
     ctx.cover(emit_programs_compared=compared, emit_in_theorem_domain=in_domain, emit_disagreements=bad_total,
               emit_skipped=dict(skipped), emit_generated_invalid=rejected)
     return [c for c in cases if c.get("origin") == "emit-templates" and c["kind"] == "model"]
+
+
+def corr_cf(ctx, workdir, cleanup, stats, tab):
+    """the statement STRUCTURE the real exporter prints for models / functions with If and Loop (depth <= 2), under the
+    options that change it, = Export/EmitCF.v `export_cf` (the function the theorem of Props/C13_nested.v is about);
+    compared inside Coq on the parsed AST.  The exporter raising <-> the model refusing.  A disagreement: the
+    round-trip oracle is evaluated on that input first (see _emit_disagreement).
+    -> the hand-made feature cases (also handed to the round-trip oracle by the caller)"""
+    from collections import Counter
+
+    from harness import c13_cf as C
+    C.set_ops(tab["ops"])
+    quick = ctx.tier == "quick"
+    cases, rejected = C.nested_cases(ctx.rng, 26 if quick else 110, 8 if quick else 30)
+    fixed = [dict(zip(OPT_NAMES, t)) for t in ((False, False, False, False), (True, False, False, False), (False, True, True, False),
+                                               (False, False, True, False), (False, True, False, False), (False, False, False, True))]
+    skipped, items, refused = Counter(), [], 0
+    for c in cases:
+        if quick:
+            opt_list = fixed[:3] + [fixed[3 + len(items) % 3]] + [ctx.rng.choice(ALL_OPTS)]
+            opt_list = [o for k, o in enumerate(opt_list) if o not in opt_list[:k]]
+        else:
+            opt_list = list(ALL_OPTS)
+        for opts in opt_list:
+            try:
+                C.in_scope(c, opts)
+                obs = C.observe(c, opts)
+            except C.OutOfScope as e:
+                skipped[str(e)[:60]] += 1
+                continue
+            except C.ParseError as e:
+                ctx.tie_broken("translator", "cf:generated-source", f"{c['id']} [{opt_tag(opts)}]: {e}")
+                continue
+            if obs["func"] == "SYNTAX":  # not valid Python: a failure of the property on this input; the oracle names its class
+                names = G.all_names(c["proto"])
+                fr = len({cleanup(n) for n in names}) == len(set(names))
+                out = R.round_trip(c, opts, workdir, R.reference_outputs(c), cleanup, check_input_names=fr)
+                if out["stage"] == "ok":
+                    ctx.tie_broken("translator", "cf:generated-source", f"{c['id']} [{opt_tag(opts)}]: ast.parse failed ({obs['raised']}) but the round trip succeeds")
+                else:
+                    key = classify(c, analyze(c["proto"]), not fr, opts, out, cleanup)
+                    ctx.violation(key, KNOWN_CLASSES.get(key) or f"{c['id']} [{opt_tag(opts)}]: {out['stage']} {out['exc'] or ''} {out['msg'] or out['detail']}"[:400],
+                                  _replay(c, opts, out))
+                continue
+            refused += obs["func"] is None
+            items.append((c, opts, obs))
+    bad_total, in_domain, plain, compared = 0, 0, 0, 0
+    forms = Counter()
+    for lo in range(0, len(items), 50):
+        shard = items[lo:lo + 50]
+        ok, vals, raw = ctx.coq_eval(C.REQUIRES, C.coq_body(shard), name="cf")
+        if not ok or len(vals) < 3:
+            ctx.tie_broken("correspondence", "cf:model-evaluation", raw[-800:])
+            bad_total += 1
+            continue
+        bad = set(common.parse_nat_list(vals[0]))
+        hyp = re.findall(r"true|false", vals[1])
+        some = re.findall(r"true|false", vals[2])
+        if len(hyp) != len(shard) or len(some) != len(shard):
+            ctx.tie_broken("correspondence", "cf:model-evaluation", f"{len(hyp)}/{len(some)} verdicts for {len(shard)} cases")
+            bad_total += 1
+            continue
+        for k, (c, opts, obs) in enumerate(shard):
+            compared += 1
+            info = analyze(c["proto"])
+            is_plain = not (opts["use_operators"] or opts["inline_const"] or opts["skip_initializers"])
+            plain += is_plain
+            in_domain += hyp[k] == "true"
+            shape = (info["ifs"] > 0, info["while"] > 0, info["pure_for"] > 0, info["for_with_cond"] > 0, info["depth"])
+            forms[shape] += 1
+            ctx.case(("cf", c["kind"], c["profile"], opt_tag(opts), shape, hyp[k], some[k], obs["func"] is None, min(obs["statements"], 16)))
+            if k in bad:
+                bad_total += 1
+                what = (f"the exporter raised ({obs['raised']}) where the model emits a program" if obs["func"] is None else
+                        ("the model refuses a graph the exporter prints: " if some[k] == "false" else "printed statement structure differs from export_cf: ")
+                        + _first_difference(obs["code"], opts["rename"]))
+                _emit_disagreement(ctx, c, opts, workdir, cleanup, what)
+            elif compared % 41 == 1:
+                ctx.sample({"case": c["id"], "options": opt_tag(opts), "outcome": "exporter raised = model refuses" if obs["func"] is None else "printed program = export_cf",
+                            "statements": obs["statements"], "ifs": info["ifs"], "loops": info["while"] + info["pure_for"] + info["for_with_cond"],
+                            "depth": info["depth"], "theorem_hypotheses_hold": hyp[k] == "true"})
+    ctx.obligation(f"correspondence: the statement structure printed by the real proto2python = Export/EmitCF.v `export_cf` on {compared} "
+                   f"(model or function with If/Loop, option tuple) pairs, compared on the AST inside Coq", bad_total == 0 and compared > 0,
+                   f"{bad_total} disagreements")
+    ctx.obligation("nested tie health: at least a quarter of the programs compared with the structure-changing options off satisfy every "
+                   "hypothesis of C13_export_nested_sound_partial", in_domain * 4 >= plain and plain > 0, f"{in_domain} of {plain}")
+    ctx.cover(cf_programs_compared=compared, cf_in_theorem_domain=in_domain, cf_plain_option_programs=plain, cf_disagreements=bad_total,
+              cf_exporter_refused_and_model_refused=refused, cf_skipped=dict(skipped), cf_generated_invalid=rejected,
+              cf_shapes={str(k): v for k, v in sorted(forms.items(), key=lambda kv: -kv[1])[:12]})
+    return [c for c in cases if c.get("origin") == "cf-features"]
 
 
 def _emit_disagreement(ctx, c, opts, workdir, cleanup, detail):
@@ -818,6 +932,10 @@ def run(ctx):
     ctx.assume("emission theorem (Export/Emit.v): straight-line graphs of default-domain operators; attribute values abstract (their printed text is "
                "evaluated and re-encoded by the harness before the comparison); use_operators / inline_const / skip_initializers off; "
                "an omitted node output is the empty name at its position; Python reading of the program = Script/PySem.v")
+    ctx.assume("nested emission theorem (Export/EmitCF.v): options off; plain nodes, If, Loop in the while form whose body does not read its condition "
+               "input, nested to any depth; one iteration bound for Python `while` and for ONNX Loop without trip count; the exporter's two dictionaries "
+               "(remapping scope, inlined constants) are computed in traversal order before the emission; the counted Loop forms, use_operators, "
+               "inline_const and skip_initializers are in the emission model and in the correspondence check only")
     ctx.assume("un-SSA theorem (Export/Unssa.v): the translated loop body is an abstract state transformer satisfying its specification "
                "(Section hypothesis body_spec); abstract values, no scan outputs")
     ctx.trust("onnx.checker (full_check) filters generator output; onnxruntime executes both sides; ast.parse/importlib execute the generated text")
@@ -834,6 +952,7 @@ def run(ctx):
     corr_const_repr(ctx, workdir)
     check_keyword_table(ctx, tab, workdir, cleanup)
     templ = corr_emit(ctx, workdir, cleanup, stats)
+    cf_feats = corr_cf(ctx, workdir, cleanup, stats, tab)
 
     quick = ctx.tier == "quick"
     models, rej1 = G.random_models(ctx.rng, 76 if quick else 180)
@@ -864,7 +983,10 @@ def run(ctx):
     templ = templ[: (26 if quick else 140)]
     for c in templ:
         c["opts"] = [ALL_OPTS[0]] + ([ctx.rng.choice([o for o in ALL_OPTS[1:] if not o["rename"] and not o["skip_initializers"]])] if not quick else [])
-    cases = scripts + hand + attrs + ranks + models + funcs + templ
+    # the hand-made nested features through the oracle: default options, and operators + inlined literals
+    for c in cf_feats:
+        c["opts"] = [ALL_OPTS[0], dict(zip(OPT_NAMES, (False, True, True, False)))]
+    cases = scripts + hand + attrs + ranks + models + funcs + templ + cf_feats
     stats["generated_invalid_skipped"] = rej1 + rej2 + rej3
     stats["rank_const_illegal_combinations"] = rej4
     run_cases(ctx, cases, workdir, cleanup, stats)
@@ -885,7 +1007,8 @@ def run(ctx):
               output_names_changed=stats["output_names_changed"], make_model_protocol_runs=stats["make_model_protocol"],
               generated_invalid_skipped=stats["generated_invalid_skipped"], unrunnable_originals=stats["unrunnable_originals"],
               option_tuples="all 16" if not quick else "default + 3 random per case",
-              not_modelled="attribute pretty-printing, _handle_attrname_conflict, use_operators/inline_const text (observed through execution only); "
+              not_modelled="attribute pretty-printing, _handle_attrname_conflict (observed through execution only); use_operators / inline_const / "
+                           "skip_initializers and the counted Loop forms are modelled (Export/EmitCF.v) and compared, not covered by a soundness theorem; "
                            "If nodes whose outputs are all unused are not generated (the converter refuses them)")
     if ctx.tier == "thorough":
-        ctx.coqchk(["Props.C13", "Props.C13_unssa", "Props.C13_constrepr", "Props.C13_emit"])
+        ctx.coqchk(["Props.C13", "Props.C13_unssa", "Props.C13_constrepr", "Props.C13_emit", "Props.C13_nested"])
